@@ -10,3 +10,38 @@
   Radau and BDF are covered by the protocol monitor only; two open findings are recorded there (known_findings.json).
 -/
 import IvpModel.Proofs.CtlRk
+import IvpModel.Proofs.ScaledContinuation
+
+/-!
+  * the doubling clause ("for a linear homogeneous problem, doubling the state doubles everything that follows"), session 3c:
+    a callback that writes `c·y` instead of `y` leaves the loop in the `c`-scaled state (`Ctl.afterCb_scale`: scaled state, scaled
+    re-evaluated derivative, scaled log entry), and from a `c`-scaled state the rest of the run is the `c`-scaled rest of the run
+    under pure relative error control — `c19_scaled_continuation_*` for all four explicit methods, every c > 0 (RK4: c ≠ 0), every
+    right-hand side that is homogeneous of degree one in the state, every observer, from any state of the loop.  With atol > 0 the
+    law is not exact (the error scale atol + rtol·|y| is not homogeneous), which is why the monitor uses atol = 0 for it.
+-/
+noncomputable section
+variable {K : Type} [Field K] [LinearOrder K] [IsStrictOrderedRing K] [SqrtPow K]
+
+theorem c19_scaled_continuation_dopri5 {σ : Type} {n : Nat} (c : K) (hc : 0 < c) (P : Ctl.HParams K n) (rtol : Ctl.Vec K n) (f : Ctl.Rhs K n)
+    (hf : ∀ j t y, f j t (vsmul c y) = vsmul c (f j t y)) (ob : Ctl.Obs σ K n) (fuel : Nat) (s : Ctl.HState σ K n) :
+    Ctl.hLoop P (Ctl.dopri5Kernel Ctl.zeroVec rtol) f (Ctl.sObs c ob) fuel (Ctl.sHS c s)
+      = (Ctl.hLoop P (Ctl.dopri5Kernel Ctl.zeroVec rtol) f ob fuel s).map (Ctl.sResult c) :=
+  Ctl.dopri5_scaled_continuation c hc P rtol f hf ob fuel s
+
+theorem c19_scaled_continuation_dop853 {σ : Type} {n : Nat} (c : K) (hc : 0 < c) (P : Ctl.HParams K n) (rtol : Ctl.Vec K n) (f : Ctl.Rhs K n)
+    (hf : ∀ j t y, f j t (vsmul c y) = vsmul c (f j t y)) (ob : Ctl.Obs σ K n) (fuel : Nat) (s : Ctl.HState σ K n) :
+    Ctl.hLoop P (Ctl.dop853Kernel Ctl.zeroVec rtol) f (Ctl.sObs c ob) fuel (Ctl.sHS c s)
+      = (Ctl.hLoop P (Ctl.dop853Kernel Ctl.zeroVec rtol) f ob fuel s).map (Ctl.sResult c) :=
+  Ctl.dop853_scaled_continuation c hc P rtol f hf ob fuel s
+
+theorem c19_scaled_continuation_rk23 {σ : Type} {n : Nat} (c : K) (hc : 0 < c) (P : Ctl.R23Params K n) (hP : P.atol = Ctl.zeroVec) (f : Ctl.Rhs K n)
+    (hf : ∀ j t y, f j t (vsmul c y) = vsmul c (f j t y)) (ob : Ctl.Obs σ K n) (fuel : Nat) (s : Ctl.R23State σ K n) :
+    Ctl.rk23Loop P f (Ctl.sObs c ob) fuel (Ctl.sS23 c s) = (Ctl.rk23Loop P f ob fuel s).map (Ctl.sResult c) :=
+  Ctl.rk23_scaled_continuation c hc P hP f hf ob fuel s
+
+theorem c19_scaled_continuation_rk4 {σ : Type} {n : Nat} (c : K) (hc : c ≠ 0) (P : Ctl.R4Params K) (f : Ctl.Rhs K n)
+    (hf : ∀ j t y, f j t (vsmul c y) = vsmul c (f j t y)) (ob : Ctl.Obs σ K n) (fuel : Nat) (s : Ctl.R4State σ K n) :
+    Ctl.rk4Loop P f (Ctl.sObs c ob) fuel (Ctl.sS4 c s) = (Ctl.rk4Loop P f ob fuel s).map (Ctl.sResult c) :=
+  Ctl.rk4_scaled_continuation c hc P f hf ob fuel s
+end
